@@ -32,6 +32,10 @@ MOVERS = [
     ('rall0', [V_('X')], ('conj', ('call', 'retract', [('F', 'd0', [V_('X')])]), ('call', 'retractall', [('F', 'd0', [('_',)])])), True),
     ('rall2', [V_('X')], ('conj', ('call', 'retract', [('F', 'd2', [V_('X')])]), ('call', 'retractall', [('F', 'd2', [V_('X')])])), True),
     ('rpair', [V_('X'), V_('Y')], ('conj', ('call', 'retract', [('F', 'd0', [V_('X')])]), ('call', 'retract', [('F', 'd0', [V_('Y')])])), True),
+    ('ea', [], ('conj', ('call', 'd0', [V_('X')]), ('conj', ('call', 'asserta', [('F', 'd0', [('A', 'k')])]), 'fail')), True),
+    ('ea', [], 'tru'),
+    ('ez', [], ('conj', ('call', 'd0', [V_('X')]), ('conj', ('call', 'assertz', [('F', 'd0', [V_('X')])]), 'fail')), True),
+    ('ez', [], 'tru'),
     # two uses of the facts of one predicate open at the same time (each use works on a copy of its own)
     ('two0', [V_('X'), V_('Y')], ('conj', ('call', 'd0', [V_('X')]), ('call', 'd0', [V_('Y')])), True),
     ('two2', [V_('X'), V_('Y')], ('conj', ('call', 'd2', [V_('X')]), ('call', 'd2', [V_('Y')])), True),
@@ -126,7 +130,13 @@ def history(rnd, length):
                 ops.append(('clear',))
                 ops.append(('load', 'overwrite', HELPERS + MOVERS))
         elif r < 0.985:
-            m = rnd.choice(['mv0', 'mv2', 'nest', 'rmw', 'rall0', 'rall2', 'rpair', 'rkeep', 'rall0', 'rpair'])
+            if rnd.random() < 0.25:
+                # facts that differ only in which variables they share
+                ops.append(('assert', 'd1', 'z', [v(0), v(0)]))
+                ops.append(('assert', 'd1', rnd.choice(['a', 'z']), [v(0), v(1)]))
+                ops.append(('query', 'retract', rnd.choice([('all',), ('stop', 1)]), [fact_term('d1', [[Sym('a'), 'a'], [Sym('a'), 'b']])]))
+                ops.extend(readback(names))
+            m = rnd.choice(['mv0', 'mv2', 'nest', 'rmw', 'rall0', 'rall2', 'rpair', 'rkeep', 'rall0', 'rpair', 'ea', 'ez'])
             nargs = {'rall0': 1, 'rall2': 1, 'rpair': 2, 'rkeep': 2}.get(m, 0)
             ops.append(('query', m, rnd.choice([('all',), ('all',), ('stop', 1), ('stop', 2)]) if nargs else ('all',), [v(20 + j) for j in range(nargs)]))
         else:
